@@ -291,6 +291,23 @@ def _mk_seq_any(**s):
 P_SEQ_ANY = {"i0": SMALL, "i1": I(0, 127), "w": I(0, 2), "n": I(0, 2), "o0": BYTE, "o1": BYTE}
 
 
+SEQ_ANY_DEF = T("SEQ", comps=[("version", INT, "def", 0), ("readings", T("SEQOF", elem=INT), "req", None), ("names", T("SETOF", elem=OCTS), "opt", None),
+                               ("extra", ANY.tagged(("E", "C", 9)), "opt", None)], name="SEQ{version INT=0,readings SEQOF INT,names SETOF OCTS?,extra [9]E ANY?}")
+
+
+def _mk_seq_any_def(**s):
+    from vfw import x690ref as R
+
+    av = {"readings": [s["i1"], 2][: s["k"]]}
+    if s["hb"]:
+        av["version"] = s["i0"]
+    if s["hc"]:
+        av["names"] = [bytes([s["o0"]])]
+    if s["hd"]:
+        av["extra"] = bytes(R.der(INT, s["i1"]))
+    return av
+
+
 def _mk_seq_any_tagged(**s):
     av = _mk_seq_any(**s)
     if not s["hv"]:
@@ -477,6 +494,8 @@ def constructed():
                    ["constructed", "record", "has_explicit"]))
     C.append(Entry("set_chx", SET_CHX, P_SET_CHX, _mk_set_chx, ["constructed", "record", "set", "choice", "has_explicit"], shard=("w",)))
     C.append(Entry("seq_optc", SEQ_OPTC, P_SEQ_OPTC, _mk_seq_optc, ["constructed", "record", "nested"], shard=("hi", "hl")))
+    C.append(Entry("seq_any_def", SEQ_ANY_DEF, {"i0": SMALL, "i1": I(0, 1), "k": I(0, 2), "hb": B, "hc": B, "o0": BYTE, "hd": B}, _mk_seq_any_def,
+                   ["constructed", "record", "any"], shard=("hb", "hd")))
     C.append(Entry("seqof_empty_elem", T("SEQOF", elem=T("SEQOF", elem=NULL)), {"k": I(0, 2), "k2": I(0, 2)}, lambda **s: [[None] * s["k2"], []][: s["k"]], ["constructed", "list", "nested", "univ"]))
     return C
 
